@@ -1,0 +1,13 @@
+//go:build verif
+
+package bridgesync
+
+import (
+	"github.com/0xPolygon/cdk-contracts-tooling/contracts/pp/l2-sovereign-chain/polygonzkevmbridgev2"
+	"github.com/ethereum/go-ethereum/accounts/abi/bind"
+	"github.com/ethereum/go-ethereum/common"
+)
+
+func newVerifBridgeV2(addr common.Address, backend bind.ContractBackend) (*polygonzkevmbridgev2.Polygonzkevmbridgev2, error) {
+	return polygonzkevmbridgev2.NewPolygonzkevmbridgev2(addr, backend)
+}
